@@ -31,6 +31,19 @@ def fieldErrs (O : Oracles) (opts : DeserOpts) (cls : FieldDecl) (doc : PyVal) :
               | .ok _ => none)
   | _, _ => []
 
+/-- the hypotheses of `class_round_trip_extras_partial`: an open class, keep_undefined on, undeclared
+    attributes (listed first) holding non-None JSON scalars, the declared rest in the fragment -/
+def fragExtras (O : Oracles) (opts : DeserOpts) (cls : FieldDecl) (x : PyVal) : Bool :=
+  match cls, x with
+  | .struct c fields defaults, .inst n attrs =>
+    let names := fields.map (·.1)
+    let ex := attrs.takeWhile (fun a => !names.contains a.1)
+    let rest := attrs.dropWhile (fun a => !names.contains a.1)
+    n == c.name && c.addl && opts.keepUndefined
+      && ex.all (fun a => !a.2.isNone && jsonScalar a.2)
+      && inFrag O (.struct c fields defaults) (.inst c.name rest)
+  | _, _ => false
+
 def run (j : Json) : Except String Json := do
   let O ← oraclesOfJson j
   let cls ← declOfJson (← j.getObjVal? "cls")
@@ -47,6 +60,10 @@ def run (j : Json) : Except String Json := do
     match inst' with
     | .ok x =>
       let s := serialize O cls x
+      -- is the instance inside the fragment on which the round trip is PROVED (class_round_trip_partial)?
+      -- (the instance the MODEL constructs: attributes in the constructor's order, undeclared ones first)
+      let xm := match inst with | .ok y => y | .error _ => x
+      out := out ++ [("inFrag", Json.bool (inFrag O cls xm)), ("inFragExtras", Json.bool (fragExtras O opts cls xm))]
       out := out ++ [("ser", resToJson s)]
       match s with
       | .ok d =>
@@ -56,7 +73,7 @@ def run (j : Json) : Except String Json := do
   if let some dj := optField j "doc" then
     let d ← valOfJson dj
     let liftOk := match cls with | .struct _ fields _ => liftableFields fields | _ => false
-    out := out ++ [("liftable", Json.bool liftOk),
+    out := out ++ [("exactDecl", Json.bool (exactDecl cls && strictJson d)), ("liftable", Json.bool liftOk),
                    ("expected", match expectedDeser O opts cls d with
                       | some x => Json.mkObj [("ok", valToJson x)]
                       | none => Json.mkObj [("reject", Json.bool true)])]
